@@ -1,5 +1,7 @@
 //! C15: the parallel range API equals the sequential one under every schedule (runtime exploration:
 //! forced worker counts, thresholds, range lengths, seeded perturbation at spawn/send/recv; watchdog).
+use crate::f_policy::DayCase;
+use crate::f_range::gen_range_case;
 use crate::falsify::*;
 use crate::gen::*;
 use crate::rng::Rng;
@@ -10,10 +12,18 @@ use std::sync::mpsc;
 use std::time::Duration;
 
 fn one(ctx: &mut Ctx, workers: usize, days: i64, threshold: usize, seed: u64, start: i64) -> bool {
+    one_at(ctx, workers, days, threshold, seed, start, None)
+}
+
+/// `at`: parameter set and place (default: MWL at 33.3 N 44.4 E)
+fn one_at(ctx: &mut Ctx, workers: usize, days: i64, threshold: usize, seed: u64, start: i64, at: Option<&DayCase>) -> bool {
     ctx.eval();
-    let input = json!({"kind": "block", "workers": workers, "days": days, "threshold": threshold, "perturb_seed": seed, "start": ymd(start), "start_rd": start});
-    let params = Params::new(Method::Mwl);
-    let l = loc(33.3, 44.4, 30., 3.);
+    let mut input = json!({"kind": "block", "workers": workers, "days": days, "threshold": threshold, "perturb_seed": seed, "start": ymd(start), "start_rd": start});
+    if let Some(c) = at {
+        input["day"] = c.to_json();
+    }
+    let params = at.map(|c| c.p.clone()).unwrap_or_else(|| Params::new(Method::Mwl));
+    let l = at.map(|c| c.l).unwrap_or_else(|| loc(33.3, 44.4, 30., 3.));
     let dr = DateRange::from(date_of_rd(start)..=date_of_rd(start + days - 1));
     let seq = prayer_times_dt_rng(&params, l, &dr);
     let (tx, rx) = mpsc::channel();
@@ -56,7 +66,8 @@ pub fn c15(ctx: &mut Ctx, tier: &str, r: &mut Rng, js: &[Value], _reqs: &[String
         if let (Some(w), Some(d), Some(t)) = (v.get("workers").and_then(|x| x.as_u64()), v.get("days").and_then(|x| x.as_i64()), v.get("threshold").and_then(|x| x.as_u64())) {
             let seed = v.get("perturb_seed").and_then(|x| x.as_u64()).unwrap_or(0);
             let start = v.get("start_rd").and_then(|x| x.as_i64()).unwrap_or(rd_of(2023, 1, 1));
-            if !one(ctx, w as usize, d, t as usize, seed, start) {
+            let at = v.get("day").and_then(DayCase::from_json);
+            if !one_at(ctx, w as usize, d, t as usize, seed, start, at.as_ref()) {
                 ctx.finish(json!({"watchdog": "fired"}));
                 return;
             }
@@ -85,6 +96,17 @@ pub fn c15(ctx: &mut Ctx, tier: &str, r: &mut Rng, js: &[Value], _reqs: &[String
                     return;
                 }
             }
+        }
+    }
+    // other parameter sets and places: every method and policy, ranges that start in the season
+    // without twilight at 46..70 degrees and run out of it (per-day independence across blocks)
+    let n_at = if tier == "thorough" { 600 } else { 40 };
+    for _ in 0..n_at {
+        let (c, days) = gen_range_case(r, 200);
+        let w = r.pick(&[2usize, 3, 4, 8, 16]);
+        if !one_at(ctx, w, days, r.pick(&[0usize, 1, 5]), if r.chance(0.5) { r.next() | 1 } else { 0 }, c.rd, Some(&c)) {
+            ctx.finish(json!({"watchdog": "fired"}));
+            return;
         }
     }
     // random configurations with perturbation
